@@ -4,7 +4,8 @@ import QtVerif.Model.ValueDomain
 
 ```
 begin <maxItems> <exactGrid> <choicesOverrideGrid> <integralFloats>          flags 0/1 ; resets everything
-port <b|n> <min> <max> <step> <integer> <choices> <enabled> <writable> <hasTw>  rationals n/d or - ; choices - | [] | c,c,…
+port <b|n> <min> <max> <step> <integer> <choices> <enabled> <writable> <hasTw> <hasExpression>
+                                                        rationals n/d or - ; choices - | [] | c,c,… ; flags 0/1
 value <known> <jval> <tout>
 seq <known> <repeat jval> <n> (<jval> <tout>){n} <m> (<jval>){m}
 enable | disable | advance <ms>
@@ -103,6 +104,7 @@ def codeStr : Code → String
   | .invalidField => "invalid-field"
   | .portDisabled => "port-disabled"
   | .readOnlyPort => "read-only-port"
+  | .portWithExpression => "port-with-expression"
   | .unexpected => "unexpected-error"
 
 /-- Same JSON value (the look of a number token does not matter to an expression's value). -/
@@ -146,23 +148,23 @@ def dstep (d : DState) : List String → DState × String
     | some mi, some g, some c, some f =>
       ({ cfg := { exactGrid := g, choicesOverrideGrid := c, integralFloats := f, maxItems := mi } }, "ok")
     | _, _, _, _ => (d, "bad-op")
-  | ["port", ty, mn, mx, stp, ig, cs, en, wr, tw] =>
+  | ["port", ty, mn, mx, stp, ig, cs, en, wr, tw, ex] =>
     let ty? : Option PType := if ty == "b" then some .boolean else if ty == "n" then some .number else none
-    match ty?, optRatOf mn, optRatOf mx, optRatOf stp, boolOf ig, choicesOf cs, boolOf en, boolOf wr, boolOf tw with
-    | some ty, some mn, some mx, some stp, some ig, some cs, some en, some wr, some tw =>
+    match ty?, optRatOf mn, optRatOf mx, optRatOf stp, boolOf ig, choicesOf cs, boolOf en, boolOf wr, boolOf tw, boolOf ex with
+    | some ty, some mn, some mx, some stp, some ig, some cs, some en, some wr, some tw, some ex =>
       ({ d with hasPort := true, hasTw := tw, table := [],
                 st := { d := { type := ty, min := mn, max := mx, step := stp, integer := ig, choices := cs,
-                               enabled := en, writable := wr } } }, "ok")
-    | _, _, _, _, _, _, _, _, _ => (d, "bad-op")
-  | ["redefine", ty, mn, mx, stp, ig, cs, en, wr, tw] =>
+                               enabled := en, writable := wr, hasExpression := ex } } }, "ok")
+    | _, _, _, _, _, _, _, _, _, _ => (d, "bad-op")
+  | ["redefine", ty, mn, mx, stp, ig, cs, en, wr, tw, ex] =>
     -- same fields as `port`; keeps the clock and the driver's call log, forgets the transform table
     let ty? : Option PType := if ty == "b" then some .boolean else if ty == "n" then some .number else none
-    match d.hasPort, ty?, optRatOf mn, optRatOf mx, optRatOf stp, boolOf ig, choicesOf cs, boolOf en, boolOf wr, boolOf tw with
-    | true, some ty, some mn, some mx, some stp, some ig, some cs, some en, some wr, some tw =>
+    match d.hasPort, ty?, optRatOf mn, optRatOf mx, optRatOf stp, boolOf ig, choicesOf cs, boolOf en, boolOf wr, boolOf tw, boolOf ex with
+    | true, some ty, some mn, some mx, some stp, some ig, some cs, some en, some wr, some tw, some ex =>
       let (d', rep) := exec d (.redefine { type := ty, min := mn, max := mx, step := stp, integer := ig, choices := cs,
-                                           enabled := en, writable := wr })
+                                           enabled := en, writable := wr, hasExpression := ex })
       ({ d' with hasTw := tw, table := [] }, rep)
-    | _, _, _, _, _, _, _, _, _, _ => (d, "bad-op")
+    | _, _, _, _, _, _, _, _, _, _, _ => (d, "bad-op")
   | ["value", k, v, t] =>
     match d.hasPort, boolOf k, pairsOf [v, t] with
     | true, some k, some [(v, t)] =>
